@@ -4,6 +4,7 @@ package main
 
 import (
 	"fmt"
+	"go/token"
 	"go/types"
 
 	"golang.org/x/tools/go/ssa"
@@ -534,7 +535,8 @@ func (ex *Exec) bufLoad(b *Buf, off *Term, t types.Type) V {
 func (ex *Exec) genCell(b *Buf, off *Term, t types.Type) int {
 	o, ok := termConstInt(off)
 	if !ok {
-		panic(abortPath{"symbolic index into non-numeric buffer " + b.what})
+		// one path per feasible position (objects cannot be merged with ite)
+		o = ex.concretize(off, 0, int64(b.Size()), "index into "+b.what, token.NoPos, nil)
 	}
 	sz := sizeof(t)
 	if sz == 0 {
